@@ -61,7 +61,7 @@ def gen_behav(rng, kind, k, ns_is_star=False):
         if r < k.refuse / 2:
             b['outcome'] = ('ret', False)
         elif r < k.refuse:
-            b['outcome'] = ('refuse', rng.choice([[], ['no way'], ['denied', {'code': 7}], ['a', 1, 2], [42]]))
+            b['outcome'] = ('refuse', rng.choice([[], ['no way'], ['denied', {'code': 7}], ['a', 1, 2], [42], ['no', b'xx']]))
         elif r < k.refuse + k.raise_p:
             b['outcome'] = ('raise', rng.choice(['ValueError', 'KeyError', 'TypeError', 'OtherError']))
         else:
